@@ -171,12 +171,18 @@ def run(repo='/repo', tier='quick'):
     # ---- C10.e
     fin = db.get('htp_tx_finalize')
     ds = fin.calls('htp_tx_destroy')
-    ok = bool(ds) and all(any(a == ('tx->connp->cfg->tx_auto_destroy', '!=', '0') for a, e in P.facts_at(fin, b)) for b, i, c in ds)
+    # the flag is tested as the configuration field itself or through a local that holds a copy of it (read before the callbacks
+    # run, D34) and is written nowhere else
+    FLAG = {'tx->connp->cfg->tx_auto_destroy'}
+    alias = P.local_init_from(fin, lambda e: e is not None and e.get('k') == 'member' and e.get('field') == 'tx_auto_destroy')
+    if alias and sum(1 for b_, i_, st_ in fin.stmts() for w in nodes(st_, lambda y: y.get('k') == 'assign' and P.K(y['l']) == alias)) == 0:
+        FLAG.add(alias)
+    ok = bool(ds) and all(any(a[0] in FLAG and a[1:] == ('!=', '0') for a, e in P.facts_at(fin, b)) for b, i, c in ds)
     # and it is reached on the success path after the hook (no other return in between)
     pd = C.postdominators(fin)
     hookb = [b for b, i, st in fin.stmts() if P.hook_runs(st)]
     res.check(ok and bool(hookb), 'C10.e', 'htp_tx_finalize:auto-destroy', 'the completed transaction is destroyed under tx_auto_destroy', 'htp_tx_finalize no longer destroys the transaction under tx_auto_destroy: memory grows with the number of transactions', fin.loc)
-    tests = [b for b in fin.blocks if fin.cond_of(b) and P.canon(fin.cond_of(b)[0]) == ('tx->connp->cfg->tx_auto_destroy', '!=', '0')]
+    tests = [b for b in fin.blocks if fin.cond_of(b) and (P.canon(fin.cond_of(b)[0]) or ('',))[0] in FLAG]
     reach_ok = False
     for tb in tests:
         # from a successful hook run (rc == OK) every path reaches the test
@@ -189,11 +195,11 @@ def run(repo='/repo', tier='quick'):
     for atoms, events, end, seq in P.enum_paths_seq(fin, (fin.entry, -1)):
         facts = [a for a, bb in atoms]
         ran = any(x[0] == 'stmt' and P.hook_runs(x[3]) for x in seq)
-        if ran and ('rc', '==', 'HTP_OK') in facts and ('tx->connp->cfg->tx_auto_destroy', '!=', '0') in facts:
+        if ran and ('rc', '==', 'HTP_OK') in facts and any(a[0] in FLAG and a[1:] == ('!=', '0') for a in facts):
             n += 1
             if not any(x[0] == 'stmt' and any(c.get('callee') == 'htp_tx_destroy' for c in nodes(x[3], lambda y: y.get('k') == 'call')) for x in seq):
                 bad = True
-        if ran and ('rc', '==', 'HTP_OK') in facts and not any(a[0] == 'tx->connp->cfg->tx_auto_destroy' for a in facts):
+        if ran and ('rc', '==', 'HTP_OK') in facts and not any(a[0] in FLAG for a in facts):
             bad = True
     res.check(not bad and n > 0, 'C10.e', 'htp_tx_finalize:destroy-on-success-path', 'every path on which TRANSACTION_COMPLETE succeeded tests tx_auto_destroy and destroys the transaction',
               'a successful completion path skips the auto-destroy', fin.loc)
